@@ -4310,7 +4310,31 @@ impl Database {
                         indexes,
                     };
 
-                    prepared.set_cached_insert_plan(cached_plan);
+                    // the cached plan stores the bound values as the row, in bind order: that is
+                    // only what the statement says for `INSERT INTO t VALUES (?, .., ?)` with one
+                    // placeholder per column, in column order
+                    let plain_row_of_params = insert.columns.is_none()
+                        && insert.on_conflict.is_none()
+                        && insert.returning.is_none()
+                        && match insert.source {
+                            crate::sql::ast::InsertSource::Values(rows) => {
+                                rows.len() == 1
+                                    && rows[0].len() == cached_plan.column_count
+                                    && rows[0].iter().enumerate().all(|(i, e)| match e {
+                                        crate::sql::ast::Expr::Parameter(
+                                            crate::sql::ast::ParameterRef::Anonymous,
+                                        ) => true,
+                                        crate::sql::ast::Expr::Parameter(
+                                            crate::sql::ast::ParameterRef::Positional(n),
+                                        ) => *n as usize == i + 1,
+                                        _ => false,
+                                    })
+                            }
+                            _ => false,
+                        };
+                    if plain_row_of_params {
+                        prepared.set_cached_insert_plan(cached_plan);
+                    }
                 }
             }
             drop(catalog_guard);
